@@ -510,6 +510,11 @@ var c19Templates = func() []c19Tpl {
 		{id: "no-fields-clauses", sql: "SELECT $a FROM eo WHERE TRUE ORDER BY 1; SELECT DISTINCT $a FROM eo; SELECT MAX($a), LISTAGG($a) FROM eo GROUP BY $a; SELECT * FROM t CROSS JOIN eo; SELECT * FROM eo UNION SELECT * FROM ea"},
 		{id: "no-fields-dml", sql: "INSERT INTO eo VALUES ($a); UPDATE eo SET x = $a; DELETE FROM eo; ALTER TABLE eo ADD x; SELECT * FROM eo", rollback: true},
 		{id: "drop-all-columns", sql: "ALTER TABLE t DROP (c1, c2, c3); SELECT COUNT(*) FROM t; SELECT * FROM t; SELECT $a FROM t; INSERT INTO t VALUES ($a); ALTER TABLE t ADD x DEFAULT $a; SELECT * FROM t", rollback: true},
+		// a data-changing statement inside a function that a data-changing statement evaluates
+		{id: "nesteddml-in-update", sql: "DECLARE ins FUNCTION (@x) AS BEGIN INSERT INTO e VALUES (@x, 1, 1); RETURN @x; END; UPDATE t SET c2 = ins($a)", rollback: true},
+		{id: "nesteddml-in-insert", sql: "DECLARE upd FUNCTION (@x) AS BEGIN UPDATE e SET c1 = @x; RETURN @x; END; INSERT INTO t VALUES (upd($a), 1, 1)", rollback: true},
+		{id: "nesteddml-in-delete", sql: "DECLARE del FUNCTION (@x) AS BEGIN DELETE FROM e WHERE c1 = @x; RETURN TRUE; END; DELETE FROM t WHERE del($a)", rollback: true},
+		{id: "nesteddml-in-select", sql: "DECLARE ins FUNCTION (@x) AS BEGIN INSERT INTO e VALUES (@x, 1, 1); RETURN @x; END; SELECT ins($a) FROM t", rollback: true},
 		// names csvq uses internally, a key given twice
 		{id: "internal-id-column", sql: "UPDATE t SET `@__internal_id` = $a; SELECT `@__internal_id` FROM t; DELETE FROM t WHERE `@__internal_id` = $a; ALTER TABLE t ADD `@__internal_id`; INSERT INTO t (`@__internal_id`) VALUES ($a)", rollback: true},
 		{id: "replace-key-twice", sql: "REPLACE INTO t (c1) USING (c1, c1) VALUES ($a); REPLACE INTO t (c1, c2) USING (c1, c2, c1) VALUES ($a, $b); REPLACE INTO t (c1, c1) USING (c1) VALUES ($a, $b)", rollback: true},
